@@ -169,7 +169,25 @@ func unmarshalFeature(b []byte) (out string) {
 	if err := json.Unmarshal(b, &f); err != nil {
 		return "ERR"
 	}
+	// the same document decoded into a receiver that already holds another feature (one variable reused while
+	// reading a stream of features): the result must not depend on what the receiver held before
+	g := staleFeature()
+	if err := json.Unmarshal(b, &g); err != nil {
+		return "HIST fresh=" + featObs(f) + " reused=ERR"
+	}
+	if a, c := featObs(f), featObs(g); a != c {
+		return "HIST fresh=" + a + " reused=" + c
+	}
 	return featObs(f)
+}
+
+func staleFeature() geom.GeoJSONFeature {
+	return geom.GeoJSONFeature{
+		Geometry:       geom.NewPoint(geom.Coordinates{XY: geom.XY{X: 7, Y: 7}}).AsGeometry(),
+		ID:             "stale-id",
+		Properties:     map[string]interface{}{"stale": true},
+		ForeignMembers: map[string]interface{}{"stale": 1.0},
+	}
 }
 
 func unmarshalFC(b []byte) (out string) {
@@ -182,12 +200,23 @@ func unmarshalFC(b []byte) (out string) {
 	if err := json.Unmarshal(b, &fc); err != nil {
 		return "ERR"
 	}
-	parts := make([]string, 0, len(fc)+1)
-	parts = append(parts, fmt.Sprint(len(fc)))
-	for _, f := range fc {
-		parts = append(parts, featObs(f))
+	obs := func(fc geom.GeoJSONFeatureCollection) string {
+		parts := make([]string, 0, len(fc)+1)
+		parts = append(parts, fmt.Sprint(len(fc)))
+		for _, f := range fc {
+			parts = append(parts, featObs(f))
+		}
+		return strings.Join(parts, " || ")
 	}
-	return strings.Join(parts, " || ")
+	// decoded again into a collection that already holds features (encoding/json reuses the slice's elements)
+	re := geom.GeoJSONFeatureCollection{staleFeature(), staleFeature(), staleFeature(), staleFeature(), staleFeature()}
+	if err := json.Unmarshal(b, &re); err != nil {
+		return "HIST fresh=" + obs(fc) + " reused=ERR"
+	}
+	if a, c := obs(fc), obs(re); a != c {
+		return "HIST fresh=" + a + " reused=" + c
+	}
+	return obs(fc)
 }
 
 func featCase(id int, r *lib.Rng, st *lib.GenStats) (string, bool) {
